@@ -342,3 +342,46 @@ Proof.
     destruct E as (_ & [(_ & _ & S & _)|[(_ & S & _)|(_ & _ & -> & _)]]); auto;
       apply bank_send_spec in S as (_ & _ & _ & Ss); exact Ss.
 Qed.
+
+(* ---------- reachable worlds ---------- *)
+
+Lemma ent_inv_reachable b0 p start wl t0 h w :
+  ent_params_valid p = true -> 1 <= start -> 0 <= t0 < two63 ->
+  (forall d, balance b0 ENT_MACC d = 0) ->
+  ent_hist_wf {| w_bank := b0; w_ent := ent_genesis p start wl; w_now := t0 |} h ->
+  ent_run {| w_bank := b0; w_ent := ent_genesis p start wl; w_now := t0 |} h = Some w ->
+  ent_inv w.
+Proof.
+  intros V S T B W R. eapply ent_inv_run; eauto. apply ent_inv_genesis; auto.
+Qed.
+
+Lemma bank_nonneg_run h : forall w w',
+  ent_inv w -> bank_nonneg (w_bank w) -> ent_hist_wf w h -> ent_run w h = Some w' ->
+  bank_nonneg (w_bank w').
+Proof.
+  induction h as [|o r IH]; intros w w' I N W H.
+  - cbn in H. injection H as <-. exact N.
+  - cbn [ent_run ent_hist_wf] in *. destruct W as [Wo Wr].
+    destruct (ent_step w o) as [w1|] eqn:E; [|discriminate].
+    apply (IH w1 w'); auto.
+    + eapply ent_inv_step; eauto.
+    + eapply ent_step_bank_nonneg; eauto.
+Qed.
+
+Lemma run_never_halts h : forall w,
+  ent_inv w -> bank_nonneg (w_bank w) -> ent_hist_wf w h -> ent_run w h <> None.
+Proof.
+  induction h as [|o r IH]; intros w I N W.
+  - cbn. discriminate.
+  - cbn [ent_run ent_hist_wf] in *. destruct W as [Wo Wr].
+    destruct (ent_step w o) as [w1|] eqn:E.
+    + apply IH; auto.
+      * eapply ent_inv_step; eauto.
+      * eapply ent_step_bank_nonneg; eauto.
+    + exfalso. destruct o as [m|now|p|payer fee].
+      * cbn [ent_step] in E. destruct (ent_validate_basic m); try discriminate.
+        destruct (ent_exec _ _ _) as [[s' r']| |]; discriminate.
+      * eapply begin_block_never_panics; eauto.
+      * cbn [ent_step] in E. destruct (ent_set_params _ _); discriminate.
+      * cbn [ent_step] in E. destruct (unlock_for_fees _ _ _ _) as [[b' s']| |]; discriminate.
+Qed.
